@@ -192,6 +192,7 @@ func (x *Exec) verifyFunction(fn *ssa.Function, con *Contract, ifaceCon *Contrac
 		}
 		// exceptional exit
 		pc.vars["panicval"] = s.panicking
+		pc.vars["$ownPanic"] = mkT("Bool", BoolLit(s.ownPanic).S, types.Typ[types.Bool])
 		if active != nil && len(active.Panics) > 0 {
 			for _, e := range active.Panics {
 				pc.clause = active.Key + "/panics " + e.Name
